@@ -132,7 +132,8 @@ def run_simple(case, env):
 
     try:
         plan = R.generate_simple_plan(
-            set(our_new), None if start is None else enc(start), enc(stop),
+            set(our_new), None if start is None else enc(start),
+            None if case.get("stop_none") else enc(stop),
             enc(onto), graph, gen, skip)
     except UnrelatedBranches:
         check(not (anc_stop & anc_onto), "C51/related-branches-refused",
@@ -230,6 +231,10 @@ def run_simple(case, env):
     # persistence
     info = (case["revno"], enc(stop))
     _check_marshal(case, info, plan)
+    _check_marshal(case, info, {})
+    # a plan is a plain mapping: any sub-plan survives as well
+    sub = dict(list(plan.items())[:case["progress"] % (len(plan) + 1)])
+    _check_marshal(case, (case["revno"] * 1000003, enc(onto)), sub)
     if case["statefile"]:
         _check_state_file(case, env, plan)
     if not merges:
@@ -362,6 +367,7 @@ def gen_simple(draw):
     return {"graph": graph, "stop": stop, "onto": onto, "start": start,
             "skip": draw(st.sampled_from([False, False, True])),
             "progress": draw(st.integers(0, 16)),
+            "stop_none": draw(st.sampled_from([False, False, True])),
             "revno": draw(st.integers(0, 40)),
             "statefile": draw(st.sampled_from([False] * 7 + [True]))}
 
@@ -380,9 +386,9 @@ def gen_transpose(draw):
 def kinds(tier):
     return [
         Kind("simple-plan", run_simple, strategy=gen_simple(),
-             examples={"quick": 3000, "thorough": 120000}),
+             examples={"quick": 6000, "thorough": 120000}),
         Kind("transpose-plan", run_transpose, strategy=gen_transpose(),
-             examples={"quick": 1000, "thorough": 40000}),
+             examples={"quick": 2000, "thorough": 40000}),
     ]
 
 
